@@ -765,9 +765,20 @@ def tree_iso(src_root, dst_root, *, d40_expected=False, check_data=True):
 
     if shape(src_root) != shape(dst_root):
         return "iso: shape differs"
+    # One data_id stands for one data object.  Where the caller gave two DIFFERENT objects one explicit data_id (outside
+    # the property's domain, see C05_outside_domain_same_id_different_data) the format can only keep the first one:
+    # a node written as a reference (same data_id AND kind as the first occurrence) must come back with the FIRST
+    # occurrence's data -- exactly that, so another deviation in this region is still reported.
+    first = {}
+    exp_data = []
+    for x in a:
+        fk = first.get(x._data_id)
+        exp_data.append(fk[0] if fk is not None and fk[1] == getattr(x, "_kind", None) else x._data)
+        if fk is None:
+            first[x._data_id] = (x._data, getattr(x, "_kind", None))
     for i, (x, y) in enumerate(zip(a, b)):
-        if check_data and value_repr(x._data) != value_repr(y._data):
-            return f"iso: data of node #{i + 1} rebuilt as {y._data!r}, expected {x._data!r}"
+        if value_repr(exp_data[i]) != value_repr(y._data):
+            return f"iso: data of node #{i + 1} rebuilt as {y._data!r}, expected {exp_data[i]!r}"
         if getattr(x, "_kind", None) != getattr(y, "_kind", None):
             return f"iso: kind of node #{i + 1} is {getattr(y, '_kind', None)!r}, expected {getattr(x, '_kind', None)!r}"
         if id_stable(x) and x._data_id != y._data_id:
